@@ -87,7 +87,7 @@ def longify(src):
 
 B = 'let b = tx.get_bucket("b").unwrap(); '
 
-def route_program(route, pre, expr, keep):
+def route_program(route, pre, expr, keep, bufdecl=None):
     """keep = 'bytes' | 'sized'"""
     helpers = {"bytes": HELPERS_BYTES, "probe": HELPERS_PROBE, "sized": HELPERS_SIZED}[keep]
     keep_bound = {"bytes": "AsRef<[u8]>", "probe": "Probe", "sized": "Sized"}[keep]
@@ -138,7 +138,7 @@ fn main() {{
         body = f'''fn main() {{
     let db = setup();
     let tx = db.tx(true).unwrap(); {pre}
-    {{ let buf = String::from("short-lived-buffer-0123456789-abcdefghij"); let _ = {expr}; }}
+    {{ {bufdecl or 'let buf = String::from("short-lived-buffer-0123456789-abcdefghij");'} let _ = {expr}; }}
     let mut junk = Vec::new();
     for i in 0..64 {{ junk.push(format!("OVERWRITTEN-OVERWRITTEN-OVERWRITTEN-{{:04}}", i)); }}
     tx.commit().unwrap();
@@ -641,22 +641,34 @@ def surface_programs(jpath):
                                 bs = [b.get("trait_bound", {}).get("trait", {}).get("path") for b in p["kind"]["type"].get("bounds", [])]
                         if any(b and b.endswith("ToBytes") for b in bs):
                             tb.append(n)
+                SB = '"short-lived-buffer-0123456789-abcdefghij"'
+                BUFKINDS = [
+                    ("", None, "buf.as_str()", False),
+                    ("+bytes-ref", f"let buf = bytes::Bytes::from(String::from({SB}));", "&buf", True),
+                    ("+bytes-val-clone", f"let buf = bytes::Bytes::from(String::from({SB}));", "buf.clone()", True),
+                    ("+vec-ref", f"let buf = String::from({SB}).into_bytes();", "&buf", True),
+                    ("+string-ref", f"let buf = String::from({SB});", "&buf", True),
+                    ("+slice", f"let buf = String::from({SB}).into_bytes();", "&buf[..]", True),
+                    ("+array-ref", "let buf = *b\"short-lived-buffer-0123456789-abcdefghij\";", "&buf", True),
+                ]
                 for pos in tb:
-                    args = []
-                    ok = True
-                    for n, (an, aty) in enumerate(inputs[1:]):
-                        if n == pos:
-                            args.append("buf.as_str()")
-                        else:
-                            a = synth_arg(an, aty, f["generics"], n)
-                            if a is None:
-                                ok = False
-                                break
-                            args.append(a)
-                    if not ok:
-                        continue
-                    progs.append(dict(id=f"shortbuf/{tname}::{it['name']}/arg{pos}", origin="shortbuf", type=f"{tname}::{it['name']}",
-                                      route="shortbuf", pre=prod["pre"], expr=f'{prod["recv"]}.{it["name"]}({", ".join(args)})', handle=False, kind="probe"))
+                    for suffix, bufdecl, bufarg, optional in BUFKINDS:
+                        args = []
+                        ok = True
+                        for n, (an, aty) in enumerate(inputs[1:]):
+                            if n == pos:
+                                args.append(bufarg)
+                            else:
+                                a = synth_arg(an, aty, f["generics"], n)
+                                if a is None:
+                                    ok = False
+                                    break
+                                args.append(a)
+                        if not ok:
+                            continue
+                        progs.append(dict(id=f"shortbuf/{tname}::{it['name']}/arg{pos}{suffix}", origin="shortbuf", type=f"{tname}::{it['name']}",
+                                          route="shortbuf", pre=prod["pre"], expr=f'{prod["recv"]}.{it["name"]}({", ".join(args)})', handle=False, kind="probe",
+                                          bufdecl=bufdecl, optional=optional))
     for t in PRODUCERS:
         if t not in seen_types:
             uncovered.append(f"producer for {t} but the type is not in the public surface any more")
@@ -667,6 +679,10 @@ def surface_programs(jpath):
 def rustc(src_path, out_path, rlib, deps, emit_metadata):
     cmd = ["rustc", "--edition", "2021", "--error-format=json", "--crate-type", "bin", "--cap-lints", "allow",
            "--extern", f"jammdb={rlib}", "-L", f"dependency={deps}", "-C", "debuginfo=0"]
+    import glob as _glob
+    bl = sorted(_glob.glob(os.path.join(deps, "libbytes-*.rlib")))
+    if bl:
+        cmd += ["--extern", f"bytes={bl[0]}"]
     if emit_metadata:
         cmd += ["--emit=metadata", "-o", out_path]
     else:
@@ -706,7 +722,7 @@ def judge_escape(prog, work, rlib, deps):
         variants = ["sized"]
     last = None
     for keep in variants:
-        src = route_program(prog["route"], prog["pre"], prog["expr"], keep)
+        src = route_program(prog["route"], prog["pre"], prog["expr"], keep, prog.get("bufdecl"))
         h = hashlib.sha1((prog["id"] + keep).encode()).hexdigest()[:12]
         d = os.path.join(work, h)
         os.makedirs(d, exist_ok=True)
@@ -794,6 +810,10 @@ def judge_escape(prog, work, rlib, deps):
         shutil.rmtree(d, ignore_errors=True)
         return res
     kinds, errs, src = last
+    if prog.get("optional"):
+        # a buffer kind the argument does not accept at all (no ToBytes impl): nothing to judge
+        res["verdict"] = "not_applicable"
+        return res
     res["verdict"] = "rejected_other"
     res["detail"] = "; ".join(f"{c}: {m}" for c, m in errs if not m.startswith("aborting"))[:400]
     return res
